@@ -34,6 +34,7 @@ OPTIONS: List[Tuple[str, Dict[str, Any]]] = [
     ("indent=None,separators=compact,default=str", {"indent": None, "separators": (",", ":"), "default": str}),
     ("indent=2,separators=compact,default=str", {"indent": 2, "separators": (",", ":"), "default": str}),
     ("indent=2,sort_keys=True", {"indent": 2, "sort_keys": True}),
+    ("default=hook", {"default": lambda o: {"hooked": type(o).__name__}}),
 ]
 PRETTY = {i for i, (_, kw) in enumerate(OPTIONS) if kw.get("indent")}
 
@@ -57,7 +58,33 @@ def build_values() -> List[Tuple[str, Any]]:
         ("lone-surrogate", {"s": "\ud800", "k": ["é", 1]}),
         ("needs-default", {"when": _Odd(), "n": [2 ** 64]}),
         ("2^64", 2 ** 64),
+        ("-2^63-1,10^30", {"id": -(2 ** 63) - 1, "total": 10 ** 30, "s": "é"}),
     ]
+
+
+# values the optional codec refuses and hands to the standard library: whatever the options, the result must be the one
+# the standard-library configuration gives
+STDLIB_PATH_VALUES = ("message-with-2^64", "deep-nesting", "lone-surrogate", "needs-default", "2^64", "-2^63-1,10^30")
+
+
+def judge_across(kind: str, refs: Dict[str, Dict[Tuple[int, int], Dict[str, Any]]]) -> List[Tuple[List[List[int]], dict, str]]:
+    """First-call-in-a-fresh-process outputs of the orjson configuration vs the stdlib configuration, for the values that
+    take the standard-library path in both."""
+    if kind != "dumps" or "orjson" not in refs or "stdlib" not in refs:
+        return []
+    names = [n for n, _ in build_values()]
+    out = []
+    for (o, v), a in sorted(refs["orjson"].items()):
+        if names[v] not in STDLIB_PATH_VALUES:
+            continue
+        b = refs["stdlib"].get((o, v))
+        if b is None:
+            continue
+        if {k: a.get(k) for k in ("h", "len", "exc")} != {k: b.get(k) for k in ("h", "len", "exc")}:
+            out.append(([[o, v]], {"class": "orjson-refused-value-encoded-differently", "config": "orjson", "call": OPTIONS[o][0]},
+                        f"dumps({names[v]}, {OPTIONS[o][0]}) in a fresh process: with orjson importable -> "
+                        f"{a.get('exc') or str(a.get('len')) + ' bytes'}, with orjson masked -> {b.get('exc') or str(b.get('len')) + ' bytes'}"))
+    return out
 
 
 # --- the model layer -----------------------------------------------------------------
@@ -248,4 +275,5 @@ def judge(kind: str, config: str, seqs: List[List[List[int]]], answers: List[Any
                              f"{' with line breaks' if r.get('nl') else ''}; the same call made first in a fresh process returns "
                              f"{want.get('len', want.get('exc'))} bytes{' with line breaks' if want.get('nl') else ''}"))
                 break               # later calls of the sequence are already inside a changed process
+    counters["_refs"] = ref  # type: ignore[assignment]
     return viol, counters
